@@ -144,6 +144,50 @@ theorem single_ray_answer (mode : Mode) (hm : mode ≠ .symbolic) (A : Mat) (v :
         exact unique_on_ray _ _ t htpos h0co hco ht
   rw [hx, this]
 
+/-- **setup_balances** (clause "every composition key sums to the same total on both sides"): for the
+matrix chempy builds from the species as placed (`_get`: reactant columns negated; rows = all composition keys),
+`A·(xr ++ xp) = 0` says exactly that every composition key has the same total over the reactants (weights `xr`)
+and over the products (weights `xp`).  Together with `gate_sound` this is the balance statement in the
+property's own words. -/
+theorem setup_balances (p : Problem) (A : Mat) (h : setup p = .ok A) (xr xp : Vec)
+    (hxr : xr.length = p.reactants.length) :
+    ∃ rc pc, lookupAll p.substances p.reactants = some rc ∧ lookupAll p.substances p.products = some pc ∧
+      (Balances A (xr ++ xp) ↔
+        ∀ ck ∈ compositionKeys p.substances, dot (rc.map (·.get ck)) xr = dot (pc.map (·.get ck)) xp) := by
+  unfold setup at h
+  split at h
+  · cases h
+  · rename_i hboth
+    split at h
+    · rename_i rc pc hrc hpc
+      simp only at h
+      split at h
+      · cases h
+      · injection h with h
+        refine ⟨rc, pc, hrc, hpc, ?_⟩
+        have hdis : ∀ s ∈ p.products, s ∉ p.reactants := by
+          intro s hs hr
+          apply hboth
+          rw [List.any_eq_true]
+          exact ⟨s, hr, by simpa using hs⟩
+        have hrow : ∀ ck, dot (((p.reactants ++ p.products).zip (rc ++ pc)).map
+            fun q => signedEntry p.reactants ck q.1 q.2) (xr ++ xp)
+            = dot (pc.map (·.get ck)) xp - dot (rc.map (·.get ck)) xr := fun ck =>
+          signed_row_dot p.reactants p.products rc pc ck xr xp hdis
+            (lookupAll_length _ _ _ hrc) (lookupAll_length _ _ _ hpc) hxr
+        subst h
+        unfold Balances matrix
+        constructor
+        · intro hb ck hck
+          have := hb _ (List.mem_map.2 ⟨ck, hck, rfl⟩)
+          rw [hrow ck] at this
+          linarith
+        · intro hb r hr
+          obtain ⟨ck, hck, rfl⟩ := List.mem_map.1 hr
+          rw [hrow ck, hb ck hck]
+          ring
+    · cases h
+
 /-- **minimalBySearch_sound** (clause "the 'smallest integers' mode returns a positive solution of minimal
 coefficient sum", as a verified certificate checker applied to each concrete ILP answer): if the bounded
 enumeration of positive vectors with smaller coefficient sum finds no balancing one, then `x` has minimal
